@@ -562,3 +562,235 @@ def star_oracle(trial, info):
             out.append(('net-star-no-progress', f"tee of {b} consumers (silent: {trial['dead']}): after the {trial['mode']} continuation ({len(trial['stall'])} events) the recv of the live "
                         f"consumer {j} returned {new} above its prev_id {info['prev0'][j]} (expected at least {trial.get('need', 1)} new frame set(s))"))
     return out
+
+
+# ---------------------------------------------------------------------------------------------- a chain heals after restarts (OFProps/C06ChainRestart.lean)
+# Topology chainTopo 3: source 0 -> relay 1 -> sink 2; the source always returns one frame on topic `main`, the relay forwards the set it got as one `main`
+# frame (dict, lone Frame or a callable giving one of those).  Trial = a random reachable prefix WITH restarts (recv i | send i @t | restart i graceful / crash,
+# any node, anywhere, clock readings non-decreasing with gaps up to beyond the connection time-out) + the healing schedule `heal3 n0 n1 t1 t2 t3`, computed
+# AFTER the prefix has run from the state of the REAL objects and stored in the trial, so that the model runs the very same events:
+#   flushS n t  = [recv 0, send 0 @t] * n                 roundsU k t = [recv 0, send 0 @t, recv 1] * k            pullU n tf t = flushS n tf ++ [recv 1] ++ roundsU 4 t
+#   heal3       = [send 2 @t1] ++ pullU n0 t1 t2 ++ ([send 1 @t2] ++ pullU 5 t2 t2) * n1 ++ [recv 2] ++ ([send 1 @t3, recv 2] ++ pullU 5 t3 t3) * 4
+#   n0 / n1     = requests queued at the real PULL socket of node 0 / node 1, t1 = the current clock reading,
+#   t2          = max(t1, every t_last in node 0's real client table) + ZMQ_CONN_TIMEOUT + 1,  t3 = max(t2, every t_last in node 1's table) + ZMQ_CONN_TIMEOUT + 1
+#   length      = 2 n0 + 24 n1 + 115
+# Oracles: `net-chain-not-recovered` - during the healing schedule the real sink's recv returned no frame set with an id above its prev_id at the end of the
+# prefix and above everything its current incarnation returned before; `net-chain-order` - over the whole run the ids returned by recv of the relay / of the
+# sink do not strictly increase within one incarnation.
+
+def _recv(i): return {'k': 'recv', 'i': i}
+def _send(i, t): return {'k': 'send', 'i': i, 't': t}
+
+
+def flushS(n, t):
+    return [e for _ in range(n) for e in (_recv(0), _send(0, t))]
+
+
+def roundsU(k, t):
+    return [e for _ in range(k) for e in (_recv(0), _send(0, t), _recv(1))]
+
+
+def pullU(n, tf, t):
+    return flushS(n, tf) + [_recv(1)] + roundsU(4, t)
+
+
+def heal3(n0, n1, t1, t2, t3):
+    evs = [_send(2, t1)] + pullU(n0, t1, t2)
+    for _ in range(n1): evs += [_send(1, t2)] + pullU(5, t2, t2)
+    evs += [_recv(2)]
+    for _ in range(4): evs += [_send(1, t3), _recv(2)] + pullU(5, t3, t3)
+    return evs
+
+
+def heal3_len(n0, n1): return 2 * n0 + 24 * n1 + 115
+
+
+def lean_events(evs):
+    """the event list in Lean syntax (`List OF.Net.Ev`)"""
+    def one(e):
+        if e['k'] == 'recv': return f".nodeRecv {e['i']}"
+        if e['k'] == 'send': return f".nodeSend {e['i']} {e['t']}"
+        return f".restart {e['i']} {'true' if e['g'] else 'false'}"
+    return '[' + ', '.join(one(e) for e in evs) + ']'
+
+
+def chainrestart_topo(rng):
+    src = {'kind': 'src', 'topics': ['main']}
+    r = rng.random()
+    if r < 0.15: src['defer'] = True
+    elif r < 0.25: src['lone'] = True
+    relay = {'kind': 'pass'} if rng.random() < 0.8 else {'kind': 'lone'}
+    if rng.random() < 0.15: relay['defer'] = True
+    return {'family': 'chain', 'ups': [[], [0], [1]], 'behs': [src, relay, {'kind': 'pass'}], 'victim': 2}
+
+
+def _segment(rng, style, rounds, t, gaps):
+    evs = []
+    for _ in range(rounds):
+        t += rng.choice(gaps)
+        order = [0, 1, 2]; rng.shuffle(order)
+        for i in order:
+            if style == 'chaos':
+                for _ in range(rng.randint(0, 3)): evs.append(_recv(i) if rng.random() < 0.5 else _send(i, t))
+            else:
+                p = 0.95 if style == 'flow' else 0.7
+                if rng.random() < p: evs.append(_recv(i))
+                if rng.random() < 0.15: evs.append(_recv(i))
+                if rng.random() < p: evs.append(_send(i, t))
+                if rng.random() < 0.1: evs.append(_send(i, t))
+    return evs, t
+
+
+def gen_chainrestart_trial(rng, restarts=None):
+    """restarts: the [(victim, graceful)] to place (None: 0-4 random ones); the events between them: 0-12 rounds each, cut at any event index"""
+    topo = chainrestart_topo(rng)
+    if restarts is None:
+        nr = rng.choice([0, 1, 1, 1, 2, 2, 2, 3, 3, 4])
+        restarts = [(rng.randrange(3), rng.random() < 0.5) for _ in range(nr)]
+        if nr >= 2 and rng.random() < 0.5 and len({i for i, _ in restarts}) == 1:         # two different nodes
+            restarts[-1] = ((restarts[0][0] + rng.randint(1, 2)) % 3, restarts[-1][1])
+    style = rng.choice(['flow', 'flow', 'flow', 'loose', 'chaos'])
+    gaps = [100, 100, 100, 50, 1, 0, 6000] if rng.random() < 0.7 else [100, 100, 50, 1, 0]
+    evs, t = [], 1000
+    seg, t = _segment(rng, style, rng.choice([0, 2, 5, 8, 8, 10, 10, 12]), t, gaps)       # frames flow after ~7 fair rounds
+    if rng.random() < 0.4: seg = seg[:rng.randint(0, len(seg))]
+    evs += seg
+    for k, (i, g) in enumerate(restarts):
+        evs.append({'k': 'restart', 'i': i, 'g': bool(g)})
+        last = k == len(restarts) - 1
+        rounds = rng.choice([0, 0, 1, 2, 3, 5, 8] if not last else [0, 0, 0, 1, 2, 3, 5, 8, 10])      # adjacent restarts; healing right after a restart; mid-stream
+        seg, t = _segment(rng, style, rounds, t, gaps)
+        if rng.random() < 0.5: seg = seg[:rng.randint(0, len(seg))]
+        evs += seg
+    t1 = max([t] + [e['t'] for e in evs if e['k'] == 'send']) + rng.choice([0, 0, 0, 1, 100, 2500, 6000])
+    return {'topo': topo, 'prefix': evs, 'stall': None, 't1': t1, 'restarts': [[i, bool(g)] for i, g in restarts]}
+
+
+def chainrestart_continuation(trial, rig, wait=True):
+    """-> (healing schedule, its parameters), read off the REAL objects after the prefix.  wait=False: the negative probe t2 = t3 = t1 (no phase beyond the time-out)"""
+    S0, S1 = rig.nodes[0]['mq'].sender, rig.nodes[1]['mq'].sender
+    n0, n1 = len(S0.pulls[0].queue), len(S1.pulls[0].queue)
+    tl0 = [c.t_last for c in S0.clients.values()]
+    tl1 = [c.t_last for c in S1.clients.values()]
+    t1 = trial['t1']
+    if wait:
+        t2 = max([t1] + tl0) + CONN_TIMEOUT + 1
+        t3 = max([t2] + tl1) + CONN_TIMEOUT + 1
+    else:
+        t2 = t3 = t1
+    snap = rig.snap()
+    par = {'n0': n0, 'n1': n1, 't1': t1, 't2': t2, 't3': t3, 'clients0': snap[0]['clients'], 'clients1': snap[1]['clients'],
+           'queued_requests0': [_req_of(m) for m in S0.pulls[0].queue], 'queued_requests1': [_req_of(m) for m in S1.pulls[0].queue]}
+    return heal3(n0, n1, t1, t2, t3), par
+
+
+def _req_of(msg):
+    try:
+        e = json.loads(bytes(msg[0]).decode())
+        return {k: e[k] for k in ('cid', 'mid', 'eph', 'new') if k in e}
+    except Exception:
+        return '?'
+
+
+def run_chainrestart(trial, wait=True):
+    """-> (per-event [(obs, snap)], info).  wait=True: the trial's healing schedule (computed now and stored in trial['stall'] unless it is already there: replay);
+    wait=False: the negative probe - the trial is not touched, info['evs'] is the whole event list that ran"""
+    logging.disable(logging.CRITICAL)
+    rig = netfeed.Rig(trial['topo'])
+    out = []
+    seqs = {1: [[]], 2: [[]]}          # per node: ids its recv returned, one list per incarnation
+    failed = None
+    def note(ev, o):
+        nonlocal failed
+        if ev['k'] == 'restart':
+            if ev['i'] in seqs: seqs[ev['i']].append([])
+            if o['k'] != 'restarted': failed = o
+        elif ev['k'] == 'recv' and ev['i'] in seqs and o['k'] == 'rcvd' and o['id'] is not None: seqs[ev['i']][-1].append(o['id'])
+    for idx, ev in enumerate(trial['prefix']):
+        o = rig.event(idx, ev)
+        out.append((o, rig.snap()))
+        note(ev, o)
+    if wait and trial.get('stall') is not None: cont, par = trial['stall'], dict(trial.get('heal') or {})
+    else: cont, par = chainrestart_continuation(trial, rig, wait)
+    if wait: trial['stall'] = cont; trial['heal'] = par
+    prev0 = rig.nodes[2]['mq'].receiver.prev_id
+    floor = max([prev0] + seqs[2][-1])
+    state0 = rig.snap()
+    rets, done_at = [], None
+    npre = len(trial['prefix'])
+    for k, ev in enumerate(cont):
+        o = rig.event(npre + k, ev)
+        out.append((o, rig.snap()))
+        note(ev, o)
+        if ev['k'] == 'recv' and ev['i'] == 2 and o['k'] == 'rcvd' and o['id'] is not None:
+            rets.append(o['id'])
+            if done_at is None and o['id'] > floor: done_at = k + 1
+    rig.close()
+    info = dict(par, prev0=prev0, floor=floor, returned=rets, done_at=done_at, heal_len=len(cont), seqs=seqs, restart_failed=failed, state0=state0)
+    if not wait: info['evs'] = trial['prefix'] + cont
+    return out, info
+
+
+def chainrestart_oracle(trial, info):
+    out = []
+    if not any(x > info['floor'] for x in info['returned']):
+        out.append(('net-chain-not-recovered', f"chain 0 -> 1 -> 2 after the restarts {trial.get('restarts')}: the healing schedule heal3 n0={info.get('n0')} n1={info.get('n1')} t1={info.get('t1')} "
+                    f"t2={info.get('t2')} t3={info.get('t3')} ({info['heal_len']} events) ran and the sink's recv returned {info['returned']} - nothing above {info['floor']} "
+                    f"(its prev_id after the prefix: {info['prev0']}); client table of node 0 {info.get('clients0')}, of node 1 {info.get('clients1')}"))
+    for i in (1, 2):
+        for g, ids in enumerate(info['seqs'][i]):
+            if any(b <= a for a, b in zip(ids, ids[1:])):
+                out.append(('net-chain-order', f"chain 0 -> 1 -> 2: incarnation {g} of node {i} was handed the ids {ids} - not strictly increasing"))
+    return out
+
+
+def shrink_chainrestart(trial, key, budget=150):
+    """greedy event-dropping shrink of the prefix; the healing schedule is recomputed from the real state each time"""
+    pre = list(trial['prefix'])
+    def fails(p):
+        cand = dict(trial, prefix=p, stall=None, heal=None)
+        try:
+            _, info = run_chainrestart(cand)
+            return cand if any(k == key for k, _ in chainrestart_oracle(cand, info)) else None
+        except Exception:
+            return None
+    best = fails(pre)
+    if best is None: return trial
+    i = len(pre) - 1
+    while i >= 0 and budget > 0:
+        budget -= 1
+        c = fails(pre[:i] + pre[i + 1:])
+        if c is not None: pre = c['prefix']; best = c
+        i -= 1
+    best['restarts'] = [[e['i'], e['g']] for e in best['prefix'] if e['k'] == 'restart']
+    return best
+
+
+def nowait_unserved(trial):
+    """negative probe: (info of the run with t2 = t3 = t1) if the sink stays unserved by the schedule without the waiting phases, else None"""
+    _, ni = run_chainrestart(trial, wait=False)
+    return ni if ni['done_at'] is None else None
+
+
+def crashed_nodes(prefix):
+    """the relay / sink crashes of a prefix"""
+    return sorted({e['i'] for e in prefix if e['k'] == 'restart' and not e['g'] and e['i'] in (1, 2)})
+
+
+def shrink_nowait(trial, budget=80):
+    """greedy event-dropping shrink of the prefix of a trial whose sink stays unserved WITHOUT the waiting phases (and is served with them); the set of crashed
+    nodes stays the same"""
+    pre = list(trial['prefix'])
+    i = len(pre) - 1
+    while i >= 0 and budget > 0:
+        cand = dict(trial, prefix=pre[:i] + pre[i + 1:], stall=None, heal=None)
+        if crashed_nodes(cand['prefix']) != crashed_nodes(pre): i -= 1; continue
+        budget -= 1
+        try:
+            if nowait_unserved(cand) is not None and run_chainrestart(cand)[1]['done_at'] is not None: pre = cand['prefix']
+        except Exception:
+            pass
+        i -= 1
+    out = dict(trial, prefix=pre, stall=None, heal=None)
+    out['restarts'] = [[e['i'], e['g']] for e in pre if e['k'] == 'restart']
+    return out
